@@ -8,8 +8,11 @@ pub mod c07;
 pub mod c08;
 pub mod c09;
 pub mod c10;
+pub mod c11;
+pub mod c11_perm;
 pub mod c12;
 pub mod c13;
+pub mod c16;
 pub mod c18;
 pub mod c20;
 
@@ -62,6 +65,11 @@ pub fn lookup(id: &str) -> Option<Check> {
             run: c10::run,
         },
         Check {
+            id: "C11",
+            level: "exploration",
+            run: c11::run,
+        },
+        Check {
             id: "C12",
             level: "fault_enumeration",
             run: c12::run,
@@ -70,6 +78,11 @@ pub fn lookup(id: &str) -> Option<Check> {
             id: "C13",
             level: "exploration",
             run: c13::run,
+        },
+        Check {
+            id: "C16",
+            level: "fault_enumeration",
+            run: c16::run,
         },
         Check {
             id: "C18",
